@@ -17,7 +17,7 @@ RULE = ("kind 'scatter': a random System of 4-9 contributions drawn from rigid b
 ASSUMPTIONS = ["dense reference assembly written independently of cardillo/system.py: loops over system.contributions and adds local results at the contribution's own DOF arrays",
                "systems are assembled with compute_consistent_initial_conditions=False (C16 covers the initial conditions)",
                "equality up to summation rounding 1e-12*(1+|value|) + 64 eps * sum|summands| per cell (blocks of one contribution may cancel, e.g. a force law between two points of one body)"]
-REQUIRED_MONITORS = ["scatter.compare", "partition", "reassemble", "recompose.compare", "registry.step"]
+REQUIRED_MONITORS = ["scatter.compare", "partition", "reassemble", "coexistence", "recompose.compare", "registry.step"]
 META = {
     "level_text": "Exploration: shadow-state monitors on the real System: a dense reference assembler over random systems, partition and re-assembly snapshots, and a registry model over random add/remove histories. Held on the systems and histories generated.",
     "level_note": "reference = independent dense scatter-sum; consistent initial conditions disabled in the scatter part.",
@@ -330,6 +330,33 @@ def run_scatter(spec, ctx):
                                   {"composition": comp, "max_abs_err": float(np.abs(g - ref).max(initial=0.0)) if g.shape == ref.shape else "shape",
                                    "shape": list(g.shape), "ref_shape": list(ref.shape), "contributors": nc})
             snapshots.append((t, q, u, ud, lam, got))
+        # ---- coexistence: another system is built, assembled and evaluated, and a deep copy of this one is evaluated at another
+        # state, between two evaluations of this system at the same state (contributions must keep their layout and data in the
+        # instance, not in a class or module)
+        if snapshots:
+            ctx.mon("coexistence")
+            t, q, u, ud, lam, got = snapshots[-1]
+            try:
+                other, comp_b = _build_random_system(rng, ctx)
+                other.assemble(options=gen.no_cic_options())
+                qb, ub, udb, _ = gen.random_system_state(rng, other, perturb=0.3)
+                lamb = {"la_g": rng.normal(size=other.nla_g), "la_c": rng.normal(size=other.nla_c), "la_N": rng.normal(size=other.nla_N), "la_F": rng.normal(size=other.nla_F)}
+                _evaluate_all(other, other.t0 + 0.3, qb, ub, udb, lamb)
+                twin = S.deepcopy()
+                got_twin = _evaluate_all(twin, t, q, u, ud, lam)
+                q2, u2, ud2, _ = gen.random_system_state(rng, twin, perturb=0.3)
+                _evaluate_all(twin, t + 0.7, q2, u2, ud2, lam)
+                again = _evaluate_all(S, t, q, u, ud, lam)
+            except Exception as e:
+                ctx.violation("System", "evaluation raises while another system / a deep copy is alive", {"composition": comp, "error": f"{type(e).__name__}: {e}"[:300]})
+            else:
+                for name in got:
+                    for who, b in (("the system after another system and a deep copy were used", again[name]), ("a deep copy at the same state", got_twin[name])):
+                        a = got[name]
+                        if isinstance(a, str) or isinstance(b, str):
+                            continue
+                        if a.shape != b.shape or np.abs(a - b).max(initial=0.0) > 1e-12 * (1 + np.abs(a).max(initial=0.0)):
+                            ctx.violation(f"System.{name}", "evaluation differs between the system and " + who, {"composition": comp, "other_composition": comp_b, "method": name})
         # ---- re-assembly leaves layout and evaluations unchanged
         ctx.mon("reassemble")
         layout0 = {c.name: {a: np.atleast_1d(getattr(c, a)).tolist() for a in ("qDOF", "uDOF", "my_qDOF", "my_uDOF", "la_gDOF", "la_cDOF", "la_NDOF", "la_FDOF", "la_SDOF", "la_tauDOF") if hasattr(c, a)}
